@@ -114,3 +114,45 @@ func TestPipe(t *testing.T) {
 	})
 	t.Logf("%+v", st)
 }
+
+// A select that finds two cases ready must be explored both ways (the caller
+// is not parked in the select yet when both become ready).
+func TestSelectBothReady(t *testing.T) {
+	for _, nocache := range []bool{true, false} {
+		outcomes := map[string]int{}
+		var got string
+		st := Explore(Options{PreemptionBound: 1, StepBudget: 1000, NoCache: nocache}, func() {
+			got = ""
+			errs := Make[int](3)
+			allDone := Make[struct{}](0)
+			var wg WaitGroup
+			wg.Add(3)
+			for i := 0; i < 3; i++ {
+				Go0(func() {
+					defer wg.Done()
+					Send(errs, 1)
+				})
+			}
+			Go0(func() {
+				wg.Wait()
+				Close(allDone)
+			})
+			s := Select(false, CaseRecv[int](errs), CaseRecv[struct{}](allDone))
+			if s.Index == 0 {
+				got = "err"
+			} else {
+				got = "nil"
+			}
+		}, func(r Result) bool {
+			if r.Kind != "done" {
+				t.Fatalf("outcome %s %s", r.Kind, r.Detail)
+			}
+			outcomes[got]++
+			return true
+		})
+		t.Logf("nocache=%v %+v outcomes=%v", nocache, st, outcomes)
+		if outcomes["err"] == 0 || outcomes["nil"] == 0 {
+			t.Fatalf("expected both outcomes, got %v", outcomes)
+		}
+	}
+}
